@@ -3,6 +3,10 @@
 #include "common/framework.hpp"
 #include "common/oracle.hpp"
 #include <Eigen/Eigenvalues>
+// Failpoint (guarded hook in TridiagEigen.h / UpperHessenbergSchur.h): the harness can lower the iteration limit of the dense kernels, so that the
+// "iteration limit hit" clause of the property is observed on ordinary inputs (no finite input is known that exhausts the library's own 30n / 40n limits).
+namespace c09lim { static thread_local long limit = -1; }
+#define SPECTRA_VERIF_ITER_LIMIT(who, dflt) (c09lim::limit >= 0 ? (decltype(dflt)) c09lim::limit : (dflt))
 #include <Spectra/LinAlg/TridiagEigen.h>
 #include <Spectra/LinAlg/UpperHessenbergSchur.h>
 #include <Spectra/LinAlg/UpperHessenbergEigen.h>
@@ -285,6 +289,98 @@ static void check_hesseig(vf::Ctx& ctx, int n, int pat, const Mat& H)
     }
 }
 
+// ---- iteration-limit clause: "If the iteration limit is hit an exception is thrown; wrong numbers are never returned."
+// One object goes through: [an earlier successful compute on another matrix] -> compute(A) under a lowered limit -> accessors -> compute(A) with the
+// library's own limit. Judged: a compute() that returns normally hands back exactly what an unlimited fresh object computes (so a run that was cut
+// short cannot return normally); a compute() that gives up throws std::runtime_error and nothing else; after it the accessors do not hand back numbers
+// (they are the unfinished iterate, or the previous matrix's results); and the object recovers bit for bit.
+template <class M>
+static bool same_bytes(const M& a, const M& b)
+{
+    // value comparison (long double carries padding bytes); the reference results are finite, so NaN never compares equal by accident
+    return a.rows() == b.rows() && a.cols() == b.cols() && (a.size() == 0 || (a.array() == b.array()).all());
+}
+struct TriAcc
+{
+    using Obj = Spectra::TridiagEigen<T>;
+    static const char* name() { return "TridiagEigen"; }
+    Vec d; Mat Z;
+    void read(Obj& o) { d = o.eigenvalues(); Z = o.eigenvectors(); }
+    bool same(const TriAcc& b) const { return same_bytes(d, b.d) && same_bytes(Z, b.Z); }
+};
+struct SchurAcc
+{
+    using Obj = Spectra::UpperHessenbergSchur<T>;
+    static const char* name() { return "UpperHessenbergSchur"; }
+    Mat Tm, U;
+    void read(Obj& o) { Tm = o.matrix_T(); U = o.matrix_U(); }
+    bool same(const SchurAcc& b) const { return same_bytes(Tm, b.Tm) && same_bytes(U, b.U); }
+};
+struct HessAcc
+{
+    using Obj = Spectra::UpperHessenbergEigen<T>;
+    static const char* name() { return "UpperHessenbergEigen"; }
+    CVec ev; CMat X;
+    void read(Obj& o) { ev = o.eigenvalues(); X = o.eigenvectors(); }
+    bool same(const HessAcc& b) const { return same_bytes(ev, b.ev) && same_bytes(X, b.X); }
+};
+
+template <class Acc>
+static void limit_scenario(vf::Ctx& ctx, int n, const char* patname, const Mat& A, const Mat& Aprev, bool earlier_life, long limit)
+{
+    using Obj = typename Acc::Obj;
+    const std::string cn = Acc::name();
+    auto bad = [&](const char* what, const std::string& extra) {
+        ctx.violation(cn + "/iteration-limit/" + what, vf::J().kv("scalar", Name<T>::s()).kv("n", n).kv("pattern", patname).kv("limit", limit).kv("object_had_an_earlier_successful_compute", earlier_life)
+                                                           .kv("detail", extra).kv("matrix", mat_str(A)).str());
+    };
+    Acc fresh;
+    bool fresh_ok = true;
+    c09lim::limit = -1;
+    try { Obj f(A); fresh.read(f); }
+    catch (const std::exception&) { fresh_ok = false; }
+    if (!fresh_ok) return;   // judged by the main scenario
+    Obj o;
+    if (earlier_life)
+    {
+        try { o.compute(Aprev); }
+        catch (const std::exception&) { return; }
+    }
+    c09lim::limit = limit;
+    int outcome = 0;   // 0 returned, 1 runtime_error, 2 something else
+    std::string what;
+    try { o.compute(A); }
+    catch (const std::runtime_error& e) { outcome = 1; what = e.what(); }
+    catch (const std::exception& e) { outcome = 2; what = e.what(); }
+    catch (...) { outcome = 2; what = "not a std::exception"; }
+    c09lim::limit = -1;
+    if (outcome == 2) { bad("wrong-exception-type", what); return; }
+    if (outcome == 0)
+    {
+        ctx.count("limit/" + cn + "/not-reached");
+        Acc got;
+        try { got.read(o); }
+        catch (const std::exception& e) { bad("accessor-threw-after-successful-compute", e.what()); return; }
+        if (!got.same(fresh)) bad("compute-returned-normally-with-other-numbers-than-an-unlimited-run", "");
+        return;
+    }
+    ctx.count("limit/" + cn + "/hit");
+    ctx.count("limit/" + cn + (earlier_life ? "/hit-on-reused-object" : "/hit-on-new-object"));
+    // after the failed compute: no numbers
+    Acc after;
+    int acc = 0;
+    try { after.read(o); }
+    catch (const std::logic_error&) { acc = 1; }
+    catch (const std::exception& e) { acc = 2; what = e.what(); }
+    if (acc == 0 && !after.same(fresh)) bad("accessors-return-numbers-after-failed-compute", earlier_life ? "object had an earlier successful compute" : "new object");
+    if (acc == 2) bad("accessor-wrong-exception-after-failed-compute", what);
+    // recovery
+    Acc again;
+    try { o.compute(A); again.read(o); }
+    catch (const std::exception& e) { bad("no-recovery-after-failed-compute", e.what()); return; }
+    if (!again.same(fresh)) bad("results-after-recovery-differ-from-fresh-object", "");
+}
+
 long vf_ncases(const vf::Ctx& ctx) { return ctx.thorough ? 40000 : 1800; }
 
 void vf_run_case(vf::Ctx& ctx, long idx)
@@ -301,6 +397,19 @@ void vf_run_case(vf::Ctx& ctx, long idx)
         if (cls == 0) check_tridiag(ctx, n, pat, A);
         else if (cls == 1) check_schur(ctx, n, pat, A);
         else check_hesseig(ctx, n, pat, A);
+        if (n <= 32 && pat != 7 && pat != 8 && pat != 9)
+        {
+            // lowered limit: 0, a few sweeps, or around what the matrix needs (a tridiagonal / Hessenberg matrix needs about 2-3 sweeps per eigenvalue)
+            const int lk = (int) r.range(0, 3);
+            const long limit = lk == 0 ? 0 : lk == 1 ? r.range(1, 4) : r.range(n / 2, 4 * n);
+            const bool earlier = r.coin(0.7);
+            const int pn = (int) r.range(2, 12);
+            Mat Ap = cls == 0 ? gen_tri(ctx, pn, 0) : gen_hess(ctx, pn, 0);
+            const char* pname = cls == 0 ? TP[pat] : HP[pat];
+            if (cls == 0) limit_scenario<TriAcc>(ctx, n, pname, A, Ap, earlier, limit);
+            else if (cls == 1) limit_scenario<SchurAcc>(ctx, n, pname, A, Ap, earlier, limit);
+            else limit_scenario<HessAcc>(ctx, n, pname, A, Ap, earlier, limit);
+        }
         ctx.count("evals");
         ctx.count(std::string("class/") + cn);
         ctx.count(std::string("pattern/") + (cls == 0 ? TP[pat] : HP[pat]));
